@@ -11,7 +11,7 @@ from ..core import Campaign, CaseResult, Violation, h
 from ..terms import to_smt, T, strip_named, sort_str
 from . import models, cores, itp
 
-N_QUICK = 360
+N_QUICK = 1000
 N_THOROUGH = 16000
 
 HOSTILE = ["let", "par", "as", "forall", "exists", "assert", "push", "define-fun", "a b", "p(q)", "x;y", "q\"r",
